@@ -9,10 +9,10 @@ func VerifC19GasToRefund() {
 	avail := verifrt.U64("available_refund")
 	used := verifrt.U64("gas_consumed")
 	q := verifrt.U64("quotient")
-	verifrt.Assume(q >= 1 && q <= 16)
+	verifrt.Assume(verifrt.All(q >= 1, q <= 16))
 	r := GasToRefund(avail, used, q)
 	verifrt.Assert(r <= avail, "refund never exceeds the refund counter")
 	verifrt.Assert(r <= used/q, "refund never exceeds gasConsumed/quotient")
-	verifrt.Assert(r == avail || r == used/q, "refund is the smaller of the two caps")
+	verifrt.Assert(verifrt.Any(r == avail, r == used/q), "refund is the smaller of the two caps")
 	verifrt.Assert(r <= used, "refund never exceeds the gas consumed")
 }
